@@ -20,7 +20,9 @@ Definition root_es (c : c18_case) : fib :=
   match k_tree c with Node es => es | Leaf _ => [] end.
 
 Definition V_rspec (s : rspec) : V :=
-  VL [VZ (rh s); VZ (fh s); VZ (cb s); VZ (pb s); Vb (isU s); Vb (interleaved s)].
+  VL [VZ (rh s); VZ (fh s); VZ (cb s); VZ (pb s); Vb (isU s); Vb (interleaved s);
+      (* getElem(rank, "coord" | "payload" | "elem") *)
+      VZ (cb s); VZ (pb s); VZ (cb s + pb s)].
 
 (* observation layout: [filled specs; filled root; getRoot; getTensor; [getRank r];
                         [getFiber p]; [getSubTree p]] *)
